@@ -55,6 +55,13 @@ type hoSite struct {
 	lits     []*ast.FuncLit
 	encl     *ast.FuncDecl
 	specName string
+	// locals that only held a function literal handed to the helper: kept "used" after the argument is dropped
+	keepAlive []keepAlive
+}
+
+type keepAlive struct {
+	def  *ast.AssignStmt
+	name string
 }
 
 type textEdit struct {
@@ -81,7 +88,33 @@ func keepNewlines(b []byte) string {
 }
 
 // SpecialiseHigherOrder returns replacement contents for the files it rewrites and a description of what it did.
+// A helper that hands its function parameter on to another helper is resolved in rounds: first the outer one.
 func SpecialiseHigherOrder(dir string, overlay map[string][]byte) (map[string][]byte, []string) {
+	cur := map[string][]byte{}
+	for k, v := range overlay {
+		cur[k] = v
+	}
+	changed := map[string][]byte{}
+	var all []string
+	for round := 0; round < 4; round++ {
+		files, done := specialiseRound(dir, cur)
+		if len(done) == 0 {
+			break
+		}
+		for k, v := range files {
+			cur[k] = v
+			changed[k] = v
+		}
+		all = append(all, done...)
+	}
+	if len(all) == 0 {
+		return nil, nil
+	}
+	return changed, all
+}
+
+// specialiseRound: one pass.
+func specialiseRound(dir string, overlay map[string][]byte) (map[string][]byte, []string) {
 	ents, err := os.ReadDir(dir)
 	if err != nil {
 		return nil, nil
@@ -288,10 +321,18 @@ func SpecialiseHigherOrder(dir string, overlay map[string][]byte) (map[string][]
 				if id.Name != hp.name {
 					return
 				}
-				if call, ok := parent.(*ast.CallExpr); ok && call.Fun == ast.Expr(id) {
-					return
+				if call, ok := parent.(*ast.CallExpr); ok {
+					if call.Fun == ast.Expr(id) {
+						return
+					}
+					// handed on, as it is, to another function: resolved when that one is specialised in a later round
+					for _, a := range call.Args {
+						if a == ast.Expr(id) {
+							return
+						}
+					}
 				}
-				c.rejected = "parameter " + hp.name + " is used other than by calling it"
+				c.rejected = "parameter " + hp.name + " is used other than by calling it or handing it on"
 			})
 		}
 		if c.rejected == "" {
@@ -439,6 +480,13 @@ func SpecialiseHigherOrder(dir string, overlay map[string][]byte) (map[string][]
 				}
 				a := s.call.Args[hp.pos]
 				sub := ""
+				// a local bound once to a function literal (`neg := func(..) {..}; helper(v, neg)`) stands for the literal
+				if id, ok := a.(*ast.Ident); ok && s.encl != nil && enclLocals[id.Name] {
+					if lit, def := singleFuncLitDef(s.encl, id.Name); lit != nil {
+						a = lit
+						s.keepAlive = append(s.keepAlive, keepAlive{def, id.Name})
+					}
+				}
 				switch x := a.(type) {
 				case *ast.Ident:
 					if funcNames[x.Name] && !enclLocals[x.Name] {
@@ -552,6 +600,10 @@ func SpecialiseHigherOrder(dir string, overlay map[string][]byte) (map[string][]
 				repl += nl
 			}
 			edits[s.file] = append(edits[s.file], textEdit{lp, rp, repl})
+			for _, ka := range s.keepAlive {
+				at := off(ka.def.End())
+				edits[s.file] = append(edits[s.file], textEdit{at, at, "; _ = " + ka.name})
+			}
 		}
 		// the copies
 		d := c.decl
@@ -607,7 +659,10 @@ func SpecialiseHigherOrder(dir string, overlay map[string][]byte) (map[string][]
 							}
 						}
 						es = append(es, textEdit{off(id.Pos()) - base, off(id.End()) - base, "(" + sub + ")"})
+						return
 					}
+					// handed on as an argument
+					es = append(es, textEdit{off(id.Pos()) - base, off(id.End()) - base, sub})
 				}
 			})
 			appendix[c.file] = append(appendix[c.file], fmt.Sprintf("\n//line %s:%d\n%s\n", filepath.Base(c.file), line, applyEdits(body, es)))
@@ -693,15 +748,26 @@ func betaReduce(lit *ast.FuncLit, call *ast.CallExpr, litText, helperText func(a
 	if len(params) != len(call.Args) || len(params) == 0 {
 		return "", false
 	}
+	e := ret.Results[0]
+	uses := map[string]int{}
+	ast.Inspect(e, func(n ast.Node) bool {
+		if id, ok := n.(*ast.Ident); ok {
+			uses[id.Name]++
+		}
+		return true
+	})
 	arg := map[string]string{}
 	for i, a := range call.Args {
-		id, ok := a.(*ast.Ident)
-		if !ok {
+		if id, ok := a.(*ast.Ident); ok {
+			arg[params[i]] = id.Name
+			continue
+		}
+		// an arbitrary argument expression may replace a parameter that is used exactly once
+		if uses[params[i]] != 1 {
 			return "", false
 		}
-		arg[params[i]] = id.Name
+		arg[params[i]] = "(" + helperText(a.Pos(), a.End()) + ")"
 	}
-	e := ret.Results[0]
 	// nested function literals would need capture analysis: refuse
 	nested := false
 	ast.Inspect(e, func(n ast.Node) bool {
@@ -747,4 +813,45 @@ func betaReduce(lit *ast.FuncLit, call *ast.CallExpr, litText, helperText func(a
 	}
 	visit(e)
 	return string(applyEdits(src, es)), true
+}
+
+// singleFuncLitDef: inside fn, name is defined exactly once, by `name := func(...) {...}` (alone on its left-hand
+// side), and never assigned again. Returns the literal and the defining statement.
+func singleFuncLitDef(fn *ast.FuncDecl, name string) (*ast.FuncLit, *ast.AssignStmt) {
+	var lit *ast.FuncLit
+	var def *ast.AssignStmt
+	n := 0
+	bad := false
+	ast.Inspect(fn, func(x ast.Node) bool {
+		switch y := x.(type) {
+		case *ast.AssignStmt:
+			for i, l := range y.Lhs {
+				id, ok := l.(*ast.Ident)
+				if !ok || id.Name != name {
+					continue
+				}
+				n++
+				if y.Tok == token.DEFINE && len(y.Lhs) == 1 && len(y.Rhs) == 1 && i == 0 {
+					if fl, ok := y.Rhs[0].(*ast.FuncLit); ok {
+						lit, def = fl, y
+						continue
+					}
+				}
+				bad = true
+			}
+		case *ast.UnaryExpr:
+			if id, ok := y.X.(*ast.Ident); ok && y.Op == token.AND && id.Name == name {
+				bad = true
+			}
+		case *ast.IncDecStmt:
+			if id, ok := y.X.(*ast.Ident); ok && id.Name == name {
+				bad = true
+			}
+		}
+		return true
+	})
+	if bad || n != 1 || lit == nil {
+		return nil, nil
+	}
+	return lit, def
 }
